@@ -226,7 +226,7 @@ def apply_rules(card, sig, body, log):
     return sig, body
 
 
-def emit_fn(card, repo, out, info, twin=False):
+def emit_fn(card, repo, out, info, twin=False, assumed_here=False):
     src, clean = load(repo, card.file)
     parts = card.path.split('::')
     tname = parts[0] if len(parts) == 2 else None
@@ -267,11 +267,11 @@ def emit_fn(card, repo, out, info, twin=False):
         'clauses': [], 'loops': sorted(card.loops), 'hints': [h[0] for h in card.hints],
     }
     fid = card.id
-    if card.mode == 'assumed':
+    if card.mode == 'assumed' or assumed_here:
         out.add('#[verifier::external_body]', {'fn': fid, 'part': 'attr'})
     if 'nodecreases' in card.opts:
         out.add('#[verifier::exec_allows_no_decreases_clause]', {'fn': fid, 'part': 'attr'})
-    if card.opts.get('rlimit'):
+    if card.opts.get('rlimit') and not twin:
         out.add('#[verifier::rlimit(%s)]' % card.opts['rlimit'], {'fn': fid, 'part': 'attr'})
     out.add(sig, {'fn': fid, 'part': 'sig'})
     if card.requires:
@@ -284,11 +284,13 @@ def emit_fn(card, repo, out, info, twin=False):
         for c in card.ensures:
             out.add(c.text.rstrip().rstrip(',') + ',', {'fn': fid, 'part': 'ensures', 'clause': c.name, 'tags': c.tags})
             rec['clauses'].append({'kind': 'ensures', 'name': c.name, 'tags': c.tags, 'text': ' '.join(c.text.split())})
-    if card.mode == 'assumed':
+    if card.mode == 'assumed' or assumed_here:
         out.add('{ unimplemented!() }', {'fn': fid, 'part': 'body'})
         rec['out_sha256'] = None
+        rec['in_this_shard'] = False
         info['functions'].append(rec)
         return
+    rec['in_this_shard'] = True
     # loop contracts
     heads = loop_heads(body)
     for n in card.loops:
@@ -512,7 +514,7 @@ def parse_opts(tokens):
     return opts
 
 
-def generate(repo, template_paths, twin=False):
+def generate(repo, template_paths, twin=False, only=None):
     """Returns (text, meta_per_line, info)."""
     out = Output()
     info = {'functions': [], 'types': [], 'consts': [], 'lemmas': [], 'trusted': []}
@@ -590,7 +592,8 @@ def generate(repo, template_paths, twin=False):
                 cur = ('hint', toks[0], toks[1], toks[2] if len(toks) > 2 else '', occ)
             elif d == 'end':
                 flush()
-                emit_fn(card, repo, out, info, twin=twin and card.mode != 'assumed' and 'notwin' not in card.opts)
+                emit_fn(card, repo, out, info, twin=twin and card.mode != 'assumed' and 'notwin' not in card.opts,
+                        assumed_here=(only is not None and card.id not in only))
                 card = None
             elif d == 'lemma':
                 # //@lemma NAME tags   : next lines are a plain proof fn (template text); recorded only
